@@ -26,6 +26,31 @@
 //
 // Nothing under /repo is written: the store is a memdb, the generated source
 // lives in memory only.
+//
+// Measured (C50, avl): New+Load ≈ 0.4 s once per process (parses and
+// preprocesses strconv + avl); one Call ≈ 0.1 ms plus the interpreted work
+// (16 000 ops incl. an O(n) shape dump after every mutation: 7 s).  So: ONE
+// Runner and ONE Pkg per harness process, a Gno-side `reset()` at `#case`
+// boundaries, one Call per op line — no per-case VM start-up.
+//
+// Limits / gotchas:
+//   - A package path can be loaded once per Runner ("package … already exists
+//     in cache" otherwise): give every Load a fresh path ("main", "main2", …)
+//     or, better, keep one package and reset its state from Gno.
+//   - String arguments go through strconv.Quote, so arbitrary bytes (invalid
+//     UTF-8, NUL) reach Gno unchanged; results come back via TypedValue
+//     accessors (Res.Str/Int/Bool).  For composite results, encode them in Gno
+//     (length-prefixed, see harness/cmd/c50) or print them and read Res.Output.
+//   - Gno panics surface as Res.Panic{Gno:true, Msg}; classify on Msg in the
+//     harness (never print Msg as canonical output).  Gno code may of course
+//     also recover() itself.
+//   - Unexported identifiers of the package under test are NOT reachable from
+//     the generated package; use the exported API (C50 drives a shadow
+//     *avl.Node through exported Node methods to see the tree structure).
+//   - Only pure packages (gno.land/p/…) have been exercised.  For realms
+//     (gno.land/r/…) follow gnovm/cmd/gno/run.go: run inside
+//     Store.BeginTransaction(...), set ctx.OriginCaller before RunFiles, and
+//     re-fetch the package with Store.GetPackage after finalisation.
 package gnorun
 
 import (
@@ -117,8 +142,8 @@ func toPanic(v any) *Panic {
 // Load parses `files` (name → source) as package `name` at import path
 // `path`, runs its declarations and init functions.  Imports are resolved by
 // the store (stdlibs, then <root>/examples/<import path>).  A parse, type or
-// init-time error is returned as a *Panic.  Loading a second package at the
-// same path in the same Runner replaces the first (fresh package value).
+// init-time error is returned as a *Panic.  A path can be loaded only once per
+// Runner (the store caches the package value); use a fresh path per Load.
 func (r *Runner) Load(name, path string, files map[string]string) (p *Pkg, perr *Panic) {
 	m := r.newMachine(path)
 	defer func() {
